@@ -15,7 +15,7 @@ import numpy as np
 from mc import combi
 from mc.ref import c02_ref as ref
 from mc.runner import h64
-from mc.util import close, reldev, rng_for, spd
+from mc.util import close, fingerprint, reldev, rng_for, spd
 
 PROPERTY = 'C02'
 LEVEL = 'exploration'
@@ -33,7 +33,12 @@ RULE = ('Fold-balanced datasets: K conditions x M folds x R repetitions x P chan
         'one fold = 4 calls, perturbation of one fold = 2 calls, the latter also over the whole '
         'alphabet of the designs with <= 729 value vectors; single-informative-fold data must give 0). Distinct = '
         'distinct case descriptor; non-trivial = not (single channel and remove_mean), probe able '
-        'to show the effect.')
+        'to show the effect. Sequence family: every ordered pair (thorough: triple) of cross-validated '
+        'estimator calls from a 20-call alphabet (crossnobis via calc_rdm / calc_rdm_crossnobis with or '
+        'without a precision, poisson_cv; condition descriptor stim or the coarser cat; default or '
+        'explicit folds) on ONE Dataset object: every result judged against the definition on the '
+        'original data, and the Dataset must be bit-identical (measurements, all descriptors, no new '
+        'keys) after every call.')
 ASSUMPTIONS = [
     'reference in mc/ref/c02_ref.py is the definition (double loop over ordered pairs of distinct folds of fold-wise condition means)',
     'one precision per fold is passed as a list / 3-D array whose i-th entry belongs to the i-th fold in sorted order of the fold labels (numeric for numbers, lexicographic for strings); for the default fold descriptor the k-th entry belongs to fold k = k-th occurrence',
@@ -48,10 +53,10 @@ BOUNDS = {
     'quick': {'K': [2, 3], 'M': [2, 3], 'R': [1, 2], 'P': [1, 2, 3], 'all_row_orders_upto_rows': 6,
               'all_row_orders_of_6_row_designs_with_P': [2],
               'many_folds': [10, 11, 12], 'alphabets': ['{0,1,2}^4', '{-1,0,1,2}^4', '{0,1,2}^6', '{0,1,2}^8'],
-              'fills': 2},
+              'fills': 2, 'call_sequences': 'all ordered pairs of 20 calls x 3 designs (stimuli, categories, folds) x 2 row orders, P = 2'},
     'thorough': {'K': [2, 3, 4], 'M': [2, 3, 4], 'R': [1, 2], 'P': [1, 2, 3], 'all_row_orders_upto_rows': 6,
                  'many_folds': [10, 11, 12, 13], 'alphabets': ['{0,1,2}^4..8', '{-1,0,1,2}^4..8', '{0,1}^12'],
-                 'fills': 4},
+                 'fills': 4, 'call_sequences': 'all ordered triples of 20 calls x 3 designs x P in {1, 2}'},
 }
 
 # (method, noise form, remove_mean)
@@ -63,6 +68,14 @@ COND_LABELS = {'int': [12, 3, 7, 5], 'str': ['cz', 'ca', 'b10', 'B2'], 'char': [
 _FOLD_INT = [7, 3, 12, 5, 20, 1, 9, 15, 2, 30, 11, 4, 8, 6]
 _FOLD_STR = ['r2', 'r10', 'ra', 'Rb']
 ALPHABETS = {'012': (0, 1, 2), 'm1012': (-1, 0, 1, 2), '01': (0, 1)}
+# sequence family: S stimuli in C categories (stimulus s belongs to category s mod C), M explicit folds
+SEQ_DESIGNS = [(4, 2, 2), (4, 2, 3), (6, 3, 2)]
+STIM_LABELS = [12, 3, 7, 5, 9, 1]
+CAT_LABELS = ['cz', 'ca', 'b10']
+# [method, condition descriptor, folds, precision, entry point]
+SEQ_CALLS = [['crossnobis', d, cv, nz, e] for d in ('stim', 'cat') for cv in ('default', 'explicit')
+             for nz in ('none', 'one') for e in ('calc_rdm', 'direct')] + \
+            [['poisson_cv', d, cv, 'none', 'calc_rdm'] for d in ('stim', 'cat') for cv in ('default', 'explicit')]
 
 
 def _fold_labels(kind, n_fold):
@@ -176,6 +189,11 @@ def shards(tier, seed):
         for P in (1, 2):
             for clab in ('int', 'char', 'str'):
                 out.append({'b': 'many', 'M': M, 'P': P, 'clab': clab})
+    for S, C, M in SEQ_DESIGNS:
+        for P in ((1, 2) if thorough else (2,)):
+            step = 1 if thorough else 5
+            for a in range(0, len(SEQ_CALLS), step):
+                out.append({'b': 'seq', 'S': S, 'C': C, 'M': M, 'P': P, 'first': [a, a + step]})
     return out
 
 
@@ -328,6 +346,20 @@ def run_shard(shard, ctx):
                     if cfg[1] == 'perfold':
                         case['nform'] = ('list', 'array')[oi % 2]
                     run_case(case, ctx)
+    elif b == 'seq':
+        S, C, M, P = shard['S'], shard['C'], shard['M'], shard['P']
+        n = S * M
+        ident = list(range(n))
+        orders = [ident[0::2] + ident[1::2][::-1]] if thorough else [ident, ident[1::2] + ident[0::2][::-1]]
+        ncall = len(SEQ_CALLS)
+        for oi, order in enumerate(orders):
+            for i in range(shard['first'][0], min(ncall, shard['first'][1])):
+                for j in range(ncall):
+                    tails = [[j, k] for k in range(ncall)] if thorough else [[j]]
+                    for tail in tails:
+                        run_case({'fam': 'seq', 'S': S, 'C': C, 'M': M, 'P': P, 'order': order,
+                                  'values': {'v': ('fill', 'int')[(oi + i + j) % 2], 'k': 0},
+                                  'calls': [SEQ_CALLS[c] for c in [i] + tail]}, ctx)
     else:
         raise ValueError(b)
 
@@ -523,6 +555,8 @@ def _describe(case, inp, rows=None):
 
 # ----------------------------------------------------------------------------- judges
 def run_case(case, ctx):
+    if case.get('fam') == 'seq':
+        return _judge_sequence(case, ctx)
     probe = case.get('probe')
     if probe == 'linear':
         return _probe_linear(case, ctx)
@@ -635,3 +669,138 @@ def _probe_contrib(case, ctx):
             ctx.fail(sigp + '|fold-ignored', case, 'adding %r to condition %r in fold %r leaves the result '
                      'at %r (definition changes by %.6g); %s' % (delta, a, tgt, got0, expected,
                                                                  _describe(case, inp)))
+
+
+# ----------------------------------------------------------------------------- call sequences on one Dataset
+def _seq_data(case, seed):
+    S, C, M, P = case['S'], case['C'], case['M'], case['P']
+    canon = [(f, st) for f in range(M) for st in range(S)]
+    g = rng_for(seed, 'c02seq' + case['values']['v'], S, C, M, P, case['values']['k'])
+    if case['values']['v'] == 'int':
+        x0 = g.integers(0, 6, size=(len(canon), P)).astype(float)
+    else:
+        x0 = np.round(g.uniform(0.1, 5.0, size=(len(canon), P)), 3)
+    order = list(case['order'])
+    assert sorted(order) == list(range(len(canon)))
+    folds = _fold_labels('int', M)
+    return {'rows': [[float(v) for v in x0[i]] for i in order],
+            'stim': [STIM_LABELS[canon[i][1]] for i in order],
+            'cat': [CAT_LABELS[canon[i][1] % C] for i in order],
+            'fold': [folds[canon[i][0]] for i in order]}
+
+
+def _seq_dataset(data):
+    from rsatoolbox.data import Dataset
+    return Dataset(measurements=np.array(data['rows'], dtype=float),
+                   descriptors={'subj': 3},
+                   obs_descriptors={'trial': list(range(len(data['rows']))), 'stim': np.array(data['stim']),
+                                    'cat': list(data['cat']), 'fold': list(data['fold'])})
+
+
+def _seq_state(ds):
+    return fingerprint([ds.measurements, ds.descriptors, ds.obs_descriptors, ds.channel_descriptors])
+
+
+def _seq_call(ds, call, data, seed, P):
+    """one estimator call on ds -> ({frozenset of two labels: value}, returned labels)"""
+    from rsatoolbox.rdm import calc_rdm, calc_rdm_crossnobis
+    method, desc, cv, nz, entry = call
+    cvd = 'fold' if cv == 'explicit' else None
+    noise = _precision(seed, P, 100) if nz == 'one' else None
+    if method == 'poisson_cv':
+        rdm = calc_rdm(ds, method='poisson_cv', descriptor=desc, cv_descriptor=cvd)
+    elif entry == 'calc_rdm':
+        rdm = calc_rdm(ds, method='crossnobis', descriptor=desc, noise=noise, cv_descriptor=cvd)
+    else:
+        rdm = calc_rdm_crossnobis(ds, desc, noise=noise, cv_descriptor=cvd)
+    labels = rdm.pattern_descriptors.get(desc)
+    if labels is None:
+        return None, None
+    labels = [x.item() if hasattr(x, 'item') else x for x in labels]
+    vec = np.asarray(rdm.dissimilarities)
+    out = {}
+    if vec.shape == (1, len(labels) * (len(labels) - 1) // 2):
+        for k, (i, j) in enumerate(combi.pair_index(len(labels))):
+            out[frozenset((labels[i], labels[j]))] = float(vec[0, k])
+    return out, labels
+
+
+def _seq_want(call, data, seed, P):
+    method, desc, cv, nz, _ = call
+    cond = data[desc]
+    fold = data['fold'] if cv == 'explicit' else ref.default_folds(cond)
+    if not ref.is_fold_balanced(cond, fold):
+        return None
+    if method == 'poisson_cv':
+        return ref.poisson_cv(data['rows'], cond, fold, 1.0, 0.1)
+    return ref.crossnobis(data['rows'], cond, fold, _precision(seed, P, 100) if nz == 'one' else None, False)
+
+
+def _seq_agrees(got, labels, want, cond):
+    if got is None or sorted(map(repr, labels)) != sorted(map(repr, ref.distinct(cond))):
+        return False
+    return set(got) == set(want) and all(close(got[k], want[k], TOL) for k in want)
+
+
+def _seq_fresh_ok(case, call, data, ctx):
+    """does this very call agree with the definition on a fresh Dataset? (attribution only)"""
+    key = h64({'seqfresh': [case['S'], case['C'], case['M'], case['P'], case['order'], case['values']],
+               'call': call})
+    if key not in _CACHE:
+        try:
+            got, labels = _seq_call(_seq_dataset(data), call, data, ctx.seed, case['P'])
+            _CACHE[key] = _seq_agrees(got, labels, _seq_want(call, data, ctx.seed, case['P']), data[call[1]])
+        except Exception:
+            _CACHE[key] = False
+    return _CACHE[key]
+
+
+def _seq_sig(call):
+    method, desc, cv, nz, entry = call
+    if method == 'poisson_cv':
+        return 'sequence|calc_rdm(poisson_cv),cv=%s' % cv
+    return 'sequence|%s,noise=%s,cv=%s' % (
+        'calc_rdm(crossnobis)' if entry == 'calc_rdm' else 'calc_rdm_crossnobis', nz, cv)
+
+
+def _judge_sequence(case, ctx):
+    """several estimator calls on ONE Dataset object: each equals the definition on the original
+    data, and the Dataset is bit-identical afterwards"""
+    calls = case['calls']
+    data = _seq_data(case, ctx.seed)
+    ctx.case(case, n=len(calls))
+    with ctx.guard('sequence|construct', case):
+        ds = _seq_dataset(data)
+        state0 = _seq_state(ds)
+        keys0 = sorted(ds.obs_descriptors)
+    outs = []
+    for step, call in enumerate(calls):
+        sigp = _seq_sig(call)
+        with ctx.guard(sigp, case) as guard:
+            want = _seq_want(call, data, ctx.seed, case['P'])
+            if want is None:
+                ctx.exclude('not fold balanced')
+                continue
+            got, labels = _seq_call(ds, call, data, ctx.seed, case['P'])
+            if not _seq_agrees(got, labels, want, data[call[1]]):
+                earlier = step > 0 and _seq_fresh_ok(case, call, data, ctx)
+                kind = 'depends-on-earlier-call' if earlier else (
+                    'value-mismatch' if got is not None and set(got) == set(want) else 'label-mismatch')
+                ctx.fail(sigp + '|' + kind, case, 'call %d of %r on one Dataset: got %r (labels %r), definition %r; '
+                         'rows=%r stim=%r cat=%r fold=%r' % (
+                             step + 1, calls, got and {tuple(k): v for k, v in got.items()}, labels,
+                             {tuple(k): v for k, v in want.items()}, data['rows'], data['stim'], data['cat'],
+                             data['fold']))
+            else:
+                for k in want:
+                    ctx.dev('sequence', reldev(got[k], want[k]))
+                outs.append([round(want[k], 9) for k in sorted(want, key=repr)])
+            if _seq_state(ds) != state0:
+                keys1 = sorted(ds.obs_descriptors)
+                ctx.fail(sigp + '|modifies-dataset', case, 'after call %d of %r the caller\'s Dataset differs from '
+                         'its state before the sequence (obs descriptor keys %r, before %r)' % (
+                             step + 1, calls, keys1, keys0))
+                state0 = _seq_state(ds)      # report each modification once, at the call that made it
+        if not guard.ok:
+            break
+    ctx.outcome(outs)
